@@ -107,7 +107,7 @@ func c17WalkPaths(q *gojq.Query, path c17Path, visit func(f *gojq.Func, path c17
 // C17.handlers
 
 func c17Handlers(m *c17Model) {
-	ru := m.r.Rule("C17.handlers", "binding of failure handlers to exit codes: argument/option/file-argument failures halt with 2, compile errors with 3, evaluation errors with 5; no argument-time try swallows its failure; eval dispatches compile errors and other errors to the right callback; the expr error callback records, prints and continues; the query rewrite puts the per-output try inside the iteration over inputs; error printers end at stderr; the compile error callback ends by halting with 3; the value the expr error callback hands to _error_str (which joins) is provably a scalar whatever the program raised, the callback cannot raise on a field access and records ahead of printing", 38)
+	ru := m.r.Rule("C17.handlers", "binding of failure handlers to exit codes: argument/option/file-argument failures halt with 2, compile errors with 3, evaluation errors with 5; no argument-time try swallows its failure; eval dispatches compile errors and other errors to the right callback; the expr error callback records, prints and continues; the query rewrite puts the per-output try inside the iteration over inputs; error printers end at stderr; the compile error callback ends by halting with 3; the value the expr error callback hands to _error_str (which joins) is provably a scalar whatever the program raised, the callback cannot raise on a field access and records ahead of printing; every fallible argument-time step (open, tobytes, decode, fromjson) sits inside a try", 48)
 	mainDef, fin := m.mainFinally(ru)
 
 	// (a) every halting call, by the definition it sits in
@@ -400,6 +400,7 @@ func c17Handlers(m *c17Model) {
 		ru.Check(ok, "on_error:shape", c17Pos(d), "cancel -> silent halt, other -> _fatal_error", "_cli_eval_on_error: expected silent halt on context cancel and _fatal_error otherwise: "+c17S(d.Def.Body))
 	}
 	c17HandlersMore(m, ru)
+	c17ArgTimeCoverage(m, ru)
 }
 
 // ---------------------------------------------------------------------------
